@@ -216,6 +216,27 @@ def relational(run, seed, models, nproblems):
                     expect(f"RootAtMidpoint:{order_tag}", lnl(name, two.root_at_midpoint(), aln, params, mprobs))
                     other = rnd.choice([t for t in ("a", "b", "c", "d", "e") if t != tip])
                     expect(f"RootedWithTip:{order_tag}", lnl(name, two.rooted_with_tip(other), aln, params, mprobs))
+            if kind == "nucleotide" and mprobs is not None and reversible:
+                # (models whose motif probabilities are free parameters - GN, ssGN - take the data's frequencies only as a
+                # start value, with a pseudocount: not covered by this clause)
+                # motif probabilities TAKEN FROM THE DATA by an explicit call with every option at its default, on data that
+                # lack one base altogether: repeating every column k times leaves the frequencies, hence the process, the same
+                from cogent3 import make_aligned_seqs as _mas
+
+                lack = _mas({n_: str(s_).replace("G", "A").replace("R", "A") for n_, s_ in aln.to_dict().items()}, moltype="dna")
+                lack_rep = lack
+                for _ in range(k - 1):
+                    lack_rep = lack_rep + lack
+
+                def from_data(a_):
+                    lf_ = get_model(name).make_likelihood_function(tree)
+                    lf_.set_alignment(a_)
+                    lf_.set_motif_probs_from_data(a_)
+                    for p_, v_ in params.items():
+                        lf_.set_param_rule(p_, value=v_, is_constant=True)
+                    return lf_.lnL
+
+                expect("RepeatColumns:motif-probs-from-data:a-base-absent", from_data(lack_rep), want=k * from_data(lack))
             # the numeric TYPE of the branch lengths carried by the tree is a representation: numpy.float32 / float16 lengths
             # (a tree built from arrays) must give what Python floats of the same value give (no transform on top: adding two float16 lengths rounds differently)
             import numpy as _np
